@@ -20,7 +20,7 @@ pub struct TimedCase {
 const MS: u64 = 1_000_000;
 
 fn run_timed(c: &TimedCase) -> RunResult {
-  let cfg = arx_rt::Config { schedule: c.sched.to_schedule(), max_steps: 400_000, fuel: 200_000 };
+  let cfg = arx_rt::Config { schedule: c.sched.to_schedule(), max_steps: 100_000, fuel: 200_000 };
   run_case(&c.case, cfg, RunOpts { settle: true, final_wait_ms: 10_000, drain_ms: 0, sentinel: false })
 }
 
@@ -110,7 +110,7 @@ fn c15_check(_ctx: &Ctx, c: &TimedCase) -> Report {
     Done | Quiescent => {}
     StepBudget | FuelExhausted => {
       // every subscription is ended by the epilogue at the latest: a thread that is still
-      // busy 400 000 scheduling points later never stops
+      // busy 100 000 scheduling points later never stops
       rep.fail = fail(format!("a library thread keeps running after every subscription ended ({:?})", r.outcome.kind));
       return rep;
     }
